@@ -97,7 +97,7 @@ func (s *sim) do(line string) string {
 	}
 	obs := s.exec(line)
 	s.c.Emit(line, obs)
-	if s.t == nil || f[0] == "init" || f[0] == "chunk" {
+	if s.t == nil || f[0] == "init" || f[0] == "minit" || f[0] == "chunk" {
 		return obs
 	}
 	res := strings.SplitN(obs, " | ", 2)[0]
@@ -233,6 +233,9 @@ func (s *sim) checkAnswers(sp *simPeer) {
 
 func (s *sim) checkQuiescent(final bool) {
 	nch := s.nchunks()
+	if !s.metaKnown {
+		nch = 0 // no in-flight counters before the metadata is known
+	}
 	want := make([]int, nch)
 	bump := func(c uint32) {
 		if int(c) < nch {
@@ -301,7 +304,15 @@ func (s *sim) checkQuiescent(final bool) {
 			b, got[b], want[b], s.ps, s.length))
 	}
 	av := s.t.VerifAvailable()
-	for i := 0; i < s.npieces() || i < len(av); i++ {
+	npc := s.npieces()
+	for _, sp := range s.peers {
+		if sp.alive {
+			if n := sp.p.VerifState().Bitmap.Len(); n > npc {
+				npc = n // bits set before the metadata was known may lie beyond the torrent
+			}
+		}
+	}
+	for i := 0; i < npc || i < len(av); i++ {
 		w := 0
 		for _, sp := range s.peers {
 			if sp.alive && sp.p.VerifState().Bitmap.Get(i) {
